@@ -298,3 +298,19 @@ def gen_requests(rng, size, unit, n=6, sector=None, raw_align=1, max_bytes=4_000
     reqs.append(["raw", a, max(raw_align, long_)])
     reqs.append(["raw", a, short])
     return reqs
+
+
+def with_twins(cases, rng, every=12):
+    """after every few images, the same image again with other content (same layout, same table entries, another salt):
+    two objects alive in one worker process whose tables and offsets coincide must not see each other's data — whatever a
+    reader memoises per block number, file offset or table identity"""
+    import copy
+    out = []
+    for i, c in enumerate(cases):
+        out.append(c)
+        if i % every == 0 and isinstance(c.get("salt"), int):
+            t = copy.deepcopy(c)
+            t["salt"] = (c["salt"] ^ 0x2B5A5A5) & ((1 << 30) - 1)
+            out.append(t)
+            out.append(copy.deepcopy(c))          # ... and the first one once more, after its twin
+    return out
